@@ -83,6 +83,7 @@ func checkC11(c *km.Ctx) {
 	checkKeymasterSigned(c, s, "R-C11-2")
 
 	// ---------- R-C11-3
+	checkExtractRequiresExtension(c, s, "R-C11-3")
 	if fn := c.MustFunc("R-C11-3", "cmd/keymasterd", "(*RuntimeState).parseRefreshRoleCertGenParams"); fn != nil {
 		typ := KMD + ".roleRequestingCertGenParams"
 		for _, st := range storesByField(fn, typ)["Role"] {
@@ -374,5 +375,45 @@ func checkIPCodec(c *km.Ctx, s *km.Sem, rule string) {
 		for _, st := range storesByField(gen, certgenPkg+".IpAdressFamily")["AddressFamily"] {
 			r.Add(rule, km.FuncName(gen), "family constant (encoder)", posOf(c, st), "ipV4FamilyEncoding", km.ValStr(st.Val), isGlobalLoad(st.Val, "ipV4FamilyEncoding"))
 		}
+	}
+}
+
+// checkExtractRequiresExtension: ExtractIPNetsFromIPRestrictedX509 reports an error for a certificate without
+// the address extension. checkAuth admits an ordinary keymaster certificate under the refresh endpoint's mask
+// (the certificate gate is shared), so this error is what keeps the refresh endpoint to IP-restricted
+// certificates: a success return must have seen the extension.
+func checkExtractRequiresExtension(c *km.Ctx, s *km.Sem, rule string) {
+	fn := c.MustFunc(rule, "lib/certgen", "ExtractIPNetsFromIPRestrictedX509")
+	if fn == nil {
+		return
+	}
+	present := km.Prim{Name: "address extension present", Direct: func(f km.Fact) bool {
+		if f.Op != token.ILLEGAL || !f.Pol {
+			return false
+		}
+		cl, ok := f.X.(*ssa.Call)
+		if !ok || !strings.HasSuffix(km.CalleeFull(cl.Common()), "asn1.ObjectIdentifier).Equal") {
+			return false
+		}
+		for _, a := range cl.Common().Args {
+			if g, ok := km.Unwrap(a).(*ssa.UnOp); ok {
+				if gl, ok := g.X.(*ssa.Global); ok && gl.Name() == "oidIPAddressDelegation" {
+					return true
+				}
+			}
+		}
+		return false
+	}}
+	n := 0
+	for _, rc := range s.RetCases(fn) {
+		if len(rc.Results) != 2 || !km.IsNilConst(rc.Results[1]) {
+			continue
+		}
+		n++
+		ok := len(rc.State) > 0 && rc.State.All(func(k km.Conj) bool { return s.Holds(k, present) })
+		c.R.Add(rule, km.FuncName(fn), "netblocks extracted only from a certificate that has the address extension", posOf(c, rc.Ret), "every return without error is reached only after an extension with the address-delegation OID was found (no extension => error)", sprintf("%v", ok), ok)
+	}
+	if n == 0 {
+		c.R.AnchorLost(rule, "success return of ExtractIPNetsFromIPRestrictedX509")
 	}
 }
